@@ -136,6 +136,9 @@ WHAT = {
     'C03-9': ("`superscript_digit_to_digit` as a range `'⁰'..='⁹'` (all five evaluators)", 'U+2071..U+2073 count as digits inside a run: `2²ⁱ`'),
     'C10-8': ('eval_decimal `x!`: fractional test through `scale() > 0`', 'integer-valued decimals with a scale (`3.0!`) go through gamma'),
     'C13-8': ('eval_number parser: superscript `²` builds `Multiply(x, x)`', '`2.0²` is Float(4.0) while `2.0^2` is Integer(4)'),
+    'C20-6': ('eval_decimal `*`: returns `Decimal::ZERO` without evaluating the other side when an operand *node* is a literal zero', '`(1-1)*(1/0)` = Err but `@*(1/0)` with 0 = Ok(0); `1.50*(1-1)` = 0.00 but `1.50*@` = 0'),
+    'C18-4': ('`Number::from(f64)`: integrality test `.abs() < f64::EPSILON` (found independently of C10-3)', 'positive doubles below EPSILON (5e-324, 1e-300): Integer(0)'),
+    'C11-8': ('eval_i64 `med` of an even count: `lo + (hi - lo) / 2` with checked_sub (found independently of C11-1)', 'two middle values with a negative odd sum: `med(-3,2)` = -1'),
 }
 
 
